@@ -66,9 +66,10 @@ static Json op_to_json(const Op &op) {
   o.set("uid", (long long)op.uid);
   switch (op.kind) {
     case OP_CREATE:
-      if (op.n < 0)
+      if (op.n < 0) {
         o.set("buffer", "internal");
-      else {
+        if (op.c) o.set("len_argument", op.c);  // documented as irrelevant when the buffer is NULL
+      } else {
         o.set("buffer", "external");
         o.set("n", op.n);
         o.set("fill", op.fill);
@@ -83,6 +84,7 @@ static Json op_to_json(const Op &op) {
         o.set("value", value_name(op.value));
       else
         o.set("value", op.value);
+      if (op.k > 1) o.set("times", op.k);
       break;
     case OP_REFILL: o.set("fill", op.fill); break;
     case OP_SABOTAGE:
@@ -151,10 +153,12 @@ static bool op_from_json(const Json &o, Op &op, std::string *err) {
       op.value = v->s == "STRICT" ? 0 : v->s == "NASM" ? 1 : 2;
     else if (v)
       op.value = (int)v->n;
+    if (o.has("times")) op.k = o.num("times");
   }
   if (op.kind == OP_SABOTAGE) op.which = (int)o.num("sin");
   if (op.kind == OP_REFILL) op.fill = (int)o.num("fill", 0xCC);
   op.c = o.num("c");
+  if (op.kind == OP_CREATE) op.c = o.num("len_argument");
   if (o.has("k")) op.k = o.num("k");
   op.on = o.boolean("on");
   if (const Json *l = o.get("lines"))
@@ -202,6 +206,7 @@ Json plan_to_json(const Plan &p) {
   if (p.recover) w.setb("recover_after_fault", true);
   if (p.world.sabotage) w.set("sabotage", p.world.sabotage);
   if (p.world.fd0_free) w.setb("descriptor_0_free", true);
+  if (p.world.fd_limit) w.set("descriptor_limit", p.world.fd_limit);
   if (!p.world.files.empty()) {
     Json fa = Json::Arr();
     for (const FileSpec &f : p.world.files) {
@@ -269,6 +274,7 @@ bool plan_from_json(const Json &j, Plan &p, std::string *err) {
     p.recover = w->boolean("recover_after_fault");
     p.world.sabotage = (int)w->num("sabotage");
     p.world.fd0_free = w->boolean("descriptor_0_free");
+    p.world.fd_limit = (int)w->num("descriptor_limit");
     if (const Json *fa = w->get("files"))
       for (const Json &fo : fa->a) {
         FileSpec f;
@@ -317,7 +323,7 @@ uint64_t plan_hash(const Plan &p) {
   mixi((uint64_t)p.world.mem_policy);
   mixi(p.world.salt);
   mixi((uint64_t)p.world.behind);
-  mixi((uint64_t)p.world.sabotage * 2 + (uint64_t)p.world.fd0_free);
+  mixi((uint64_t)p.world.sabotage * 2 + (uint64_t)p.world.fd0_free + ((uint64_t)p.world.fd_limit << 8));
   mixi((uint64_t)p.probe * 2 + (uint64_t)p.recover);
   for (const FileSpec &f : p.world.files) {
     mixs(f.path);
